@@ -140,8 +140,8 @@ def checkValue (relaxed : Bool) (st : ClState) (item after : Bytes) : ClState ×
 
 /-! ### strListGetItem(&list, ',', &item, &ilen, &pos) -/
 
-/-- `delim[2]` with `del = ','`: what is skipped before an item -/
-def isListLead (b : UInt8) : Bool := b == 32 || b == 44 || b == 9 || b == 13 || b == 10
+/-- `delim[2]` with `del = ','`: what is skipped before an item — `" ,\t\r\n\v\f"`, i.e. the comma and every `xisspace` byte -/
+def isListLead (b : UInt8) : Bool := b == 32 || b == 44 || b == 9 || b == 13 || b == 10 || b == 11 || b == 12
 
 /-- The "find next delimiter" loop: returns the bytes of the raw item and the rest starting at the
 delimiter (`,` outside quotes) or empty at the NUL. `quoted` is the C variable of that name. -/
@@ -191,10 +191,28 @@ def checkListLoop (relaxed : Bool) : Nat → ClState → Bytes → ClState
       if !ok && st'.sawBad then st'
       else checkListLoop relaxed fuel st' rest
 
-/-- `checkList(list)` -/
+/-- after the loop of `checkList`: does `pos != item` hold, i.e. did the last `strListGetItem` call return 0 on a member that
+is not empty before trimming? Mirrors the control flow of `checkListLoop` (irrelevant when the loop left through `break`). -/
+def loopEndsBlank (relaxed : Bool) : Nat → ClState → Bytes → Bool
+  | 0, _, _ => false
+  | fuel + 1, st, pos =>
+    match strListGetItem pos with
+    | (none, _) => !(scanItem (pos.dropWhile isListLead) false).1.isEmpty
+    | (some it, rest) =>
+      let (st', ok) := checkValue relaxed st it.item it.after
+      if !ok && st'.sawBad then false
+      else loopEndsBlank relaxed fuel st' rest
+
+/-- `checkList(list)`; `items == 0` ⇔ the first `strListGetItem` call returned 0 -/
 def checkList (relaxed : Bool) (st : ClState) (list : Bytes) : ClState × Bool :=
   if !relaxed then ({ st with sawBad := true }, false)
-  else (checkListLoop relaxed (list.length + 1) { st with needsSanitizing := true } list, false)
+  else
+    let st0 := { st with needsSanitizing := true }
+    let st1 := checkListLoop relaxed (list.length + 1) st0 list
+    let noItems := (strListGetItem list).1.isNone
+    let blank := loopEndsBlank relaxed (list.length + 1) st0 list
+    if !st1.sawBad && (noItems || blank) then ({ st1 with sawBad := true }, false)   -- malformed list
+    else (st1, false)
 
 /-- `checkField(rawValue)` -/
 def checkField (relaxed : Bool) (st : ClState) (rawValue : Bytes) : ClState × Bool :=
